@@ -129,10 +129,9 @@ def _require_rust():
         setattr(ext, kernel, spy)  # adapters look the entry point up on the module at call time
     # deterministic step budget on the Python side of every call (adapters + pure-Python algorithms; floyd_warshall is
     # left out: three plain nested loops, nothing that can fail to terminate, and the O(n^3) body would only pay the overhead)
-    import solvor.bellman_ford, solvor.bfs, solvor.dijkstra, solvor.mst, solvor.pagerank, solvor.scc, solvor.utils  # noqa: E401
-    import solvor.rust.adapters
-
-    budget.instrument(solvor.rust.adapters, solvor.bellman_ford, solvor.bfs, solvor.dijkstra, solvor.mst, solvor.pagerank, solvor.scc, solvor.utils)
+    # (importlib, not attribute access: the package re-exports functions named like their modules, e.g. solvor.bfs)
+    names = ["solvor.rust.adapters", "solvor.bellman_ford", "solvor.bfs", "solvor.dijkstra", "solvor.mst", "solvor.pagerank", "solvor.scc", "solvor.utils"]
+    budget.instrument(*[importlib.import_module(m) for m in names])
     _ready = True
 
 
@@ -333,15 +332,76 @@ def _draw_large(draw, tier, wstrat=None, nmax=None, forward_only=False):
     return n, edges, perm[0]
 
 
+def _draw_braid(draw, wstrat=None):
+    """(n, edges, (s, t)): 2..3 routes of different lengths (2..5 hops each) from s to a merge node, then a tail of 0..2
+    hops to t, plus up to 3 noise edges; nodes relabelled by a drawn permutation, edge list shuffled (the order decides
+    which neighbour a search tries first).  The shortest route is one among several, the others reach the same late
+    nodes one or two hops later: the shape on which 'first contact' / 'first push' shortcuts of a search go wrong.
+    Up to 16 nodes, also in the quick tier."""
+    k = draw(st.integers(2, 3))
+    lens = draw(st.lists(st.integers(2, 5), min_size=k, max_size=k))
+    tail = draw(st.integers(0, 2))
+    nxt = 1
+    raw = []
+    inner = sum(x - 1 for x in lens)
+    merge = 1 + inner
+    for L in lens:
+        prev = 0
+        for _ in range(L - 1):
+            raw.append((prev, nxt))
+            prev = nxt
+            nxt += 1
+        raw.append((prev, merge))
+    prev = merge
+    for i in range(tail):
+        raw.append((prev, merge + 1 + i))
+        prev = merge + 1 + i
+    n = merge + 1 + tail
+    pos = st.integers(0, n - 1)
+    raw += draw(st.lists(st.tuples(pos, pos), max_size=3))
+    perm = draw(st.permutations(range(n)))
+    edges = [[perm[a], perm[b]] + ([draw(wstrat)] if wstrat is not None else []) for a, b in raw]
+    return n, _shuffled(draw, edges), (perm[0], perm[prev])
+
+
+def _draw_bundles(draw, wstrat):
+    """(n, edges, root): an out-tree on 2..5 nodes in which every tree edge is a bundle of 1..6 parallel edges with drawn
+    weights, listed in decreasing weight order in two of three cases (each copy then improves on the previous one, so a
+    label-correcting search re-pushes the same node again and again), plus up to 3 extra edges; list order is kept."""
+    n = draw(st.integers(2, 5))
+    perm = draw(st.permutations(range(n)))
+    edges = []
+    for i in range(1, n):
+        j = i - 1 - (draw(st.integers(0, i - 1)) if draw(st.booleans()) else 0)
+        k = draw(st.integers(1, 6))
+        ws = draw(st.lists(wstrat, min_size=k, max_size=k))
+        if draw(st.integers(0, 2)):
+            ws.sort(reverse=True)
+        edges += [[perm[j], perm[i], w] for w in ws]
+    edges += _draw_pairs(draw, n, mmax=3, plant=0, wstrat=wstrat)
+    if draw(st.booleans()):
+        edges.reverse()
+    return n, edges, perm[0]
+
+
 def _draw_graph(draw, tier, wstrat=None, large_one_in=12, large_nmax=None):
     """(family, n, edges, root).  uniform: drawn pairs.  backbone: an out-tree over a drawn permutation (every node hangs
     under its predecessor in the permutation or under an earlier one, so multi-hop routes from the root exist by
-    construction) plus drawn extra pairs, shuffled; root = first node of the permutation.  large: see _draw_large
-    (one case in `large_one_in`)."""
-    half = (large_one_in - 1) // 2
-    family = draw(st.sampled_from(["uniform"] * (large_one_in - 1 - half) + ["backbone"] * half + ["large"]))
+    construction) plus drawn extra pairs, shuffled; root = first node of the permutation.  braid, bundles (weighted
+    only), large: see _draw_braid, _draw_bundles, _draw_large (large: one case in `large_one_in`).
+    root is None, a node, or a pair (source, far target) for the braid."""
+    base = ["uniform"] * 4 + ["backbone"] * 3 + ["braid"] * 2 + (["bundles"] * 2 if wstrat is not None else ["braid"])
+    fams = base * ((large_one_in - 1) // len(base))
+    fams += ["uniform"] * (large_one_in - 1 - len(fams)) + ["large"]
+    family = draw(st.sampled_from(fams))
     if family == "large":
         n, edges, root = _draw_large(draw, tier, wstrat, large_nmax)
+        return family, n, edges, root
+    if family == "braid":
+        n, edges, root = _draw_braid(draw, wstrat)
+        return family, n, edges, root
+    if family == "bundles":
+        n, edges, root = _draw_bundles(draw, wstrat)
         return family, n, edges, root
     n = _draw_n(draw, tier)
     if family == "uniform" or n < 3:
@@ -391,6 +451,8 @@ def _draw_weighted(draw, tier, mode, large_one_in=24, large_nmax=None):
 
 
 def _draw_source(draw, n, root):
+    if isinstance(root, tuple):
+        root = root[0]
     if root is not None and draw(st.integers(0, 3)):
         return root
     return draw(st.integers(0, n - 1))
@@ -400,9 +462,11 @@ def _draw_n(draw, tier):
     return draw(st.one_of(st.integers(2, _nmax(tier)), st.integers(1, _nmax(tier))))
 
 
-def _draw_target(draw, n, source, edges):
+def _draw_target(draw, n, source, edges, root=None):
     """None / the source / a node chosen among the reachable ones / among the unreachable ones / any node.
     (Reachability is computed here so that both classes are produced by construction rather than by luck.)"""
+    if isinstance(root, tuple) and source == root[0] and draw(st.integers(0, 3)):
+        return root[1]  # the far end the family was built for
     tmode = draw(st.sampled_from(["none", "reachable", "unreachable", "source", "node", "reachable"]))
     if tmode == "none":
         return None
@@ -439,21 +503,21 @@ def bf_cases(draw, tier):
     mode = draw(st.sampled_from(["nonneg", "potential", "potential", "fewneg", "free", "hairline", "hairline"]))
     family, mode, n, edges, root = _draw_weighted(draw, tier, mode)
     s = _draw_source(draw, n, root)
-    return {"n": n, "mode": mode, "family": family, "edges": edges, "source": s, "target": _draw_target(draw, n, s, edges)}
+    return {"n": n, "mode": mode, "family": family, "edges": edges, "source": s, "target": _draw_target(draw, n, s, edges, root)}
 
 
 @st.composite
 def dj_cases(draw, tier):
     family, _, n, edges, root = _draw_weighted(draw, tier, "nonneg")
     s = _draw_source(draw, n, root)
-    return {"n": n, "family": family, "edges": edges, "source": s, "target": _draw_target(draw, n, s, edges)}
+    return {"n": n, "family": family, "edges": edges, "source": s, "target": _draw_target(draw, n, s, edges, root)}
 
 
 @st.composite
 def trav_cases(draw, tier):
     family, n, edges, root = _draw_graph(draw, tier)
     s = _draw_source(draw, n, root)
-    return {"n": n, "family": family, "edges": edges, "source": s, "target": _draw_target(draw, n, s, edges)}
+    return {"n": n, "family": family, "edges": edges, "source": s, "target": _draw_target(draw, n, s, edges, root)}
 
 
 def _binomial_case(draw):
